@@ -139,10 +139,27 @@ Print Assumptions C10_dpkg_valid_no_space.
 
 (* ====== ties to the source: BEGIN (written by bin/mkties) ====== *)
 (* The Go functions named here are translated into Gallina from /repo's source on every run
-   (tools/gen/code.go -> Gen/Code/<Eco>.v); Tie/<Eco>.v, Tie/<Eco>Range.v prove each translation equal to the
-   model the theorems above speak about.  If the code changes so that a tie no longer holds,
-   this file no longer checks. *)
-From Verif.Tie Require Debian.
+   (tools/gen -> Gen/Code/<Eco>.v for loop-free functions, Gen/Loops/<Eco>.v for functions with
+   loops and index expressions, where a panic is Panic and a loop takes fuel); Tie/<Eco>.v,
+   Tie/<Eco>Range.v and Tie/Loops/<Eco>.v prove each translation equal to the model the theorems
+   above speak about (and, for the loop functions: no panic, termination within a linear bound).
+   If the code changes so that a tie no longer holds, this file no longer checks. *)
+Require Verif.Tie.Debian.
+Require Verif.Tie.Loops.Debian.
 Definition C10_tie_debian_compare := Verif.Tie.Debian.tie_debian_compare.
 Print Assumptions C10_tie_debian_compare.
+Definition C10_tie_loops_debian_compareDebianDigits := Verif.Tie.Loops.Debian.tie_loops_debian_compareDebianDigits.
+Print Assumptions C10_tie_loops_debian_compareDebianDigits.
+Definition C10_tie_loops_debian_getDebianCharWeight := Verif.Tie.Loops.Debian.tie_loops_debian_getDebianCharWeight.
+Print Assumptions C10_tie_loops_debian_getDebianCharWeight.
+Definition C10_tie_loops_debian_compareDebianNonDigits := Verif.Tie.Loops.Debian.tie_loops_debian_compareDebianNonDigits.
+Print Assumptions C10_tie_loops_debian_compareDebianNonDigits.
+Definition C10_tie_loops_debian_compareDebianNonDigits_sum := Verif.Tie.Loops.Debian.tie_loops_debian_compareDebianNonDigits_sum.
+Print Assumptions C10_tie_loops_debian_compareDebianNonDigits_sum.
+Definition C10_tie_loops_debian_compareDebianVersionString := Verif.Tie.Loops.Debian.tie_loops_debian_compareDebianVersionString.
+Print Assumptions C10_tie_loops_debian_compareDebianVersionString.
+Definition C10_tie_compareDebianVersionString_total_model := Verif.Tie.Loops.Debian.compareDebianVersionString_total_model.
+Print Assumptions C10_tie_compareDebianVersionString_total_model.
+Definition C10_tie_debian_compare_closed := Verif.Tie.Loops.Debian.tie_debian_compare_closed.
+Print Assumptions C10_tie_debian_compare_closed.
 (* ====== ties to the source: END ====== *)
